@@ -77,9 +77,9 @@ Section Count.
   Qed.
 
   Lemma gauge_lower : forall o (s : st),
-    InvU o s -> NeedH o s -> count_must (o_incs o) <= length (s_inflight s).
+    InvU o s -> NeedH o s -> c_err (o_v o) = false -> count_must (o_incs o) <= length (s_inflight s).
   Proof.
-    intros o s HI NHs.
+    intros o s HI NHs Hce.
     set (musts := filter (fun p : hrec * oinc => is_must (oi_wire (snd p))) (List.combine (s_handlers s) (o_incs o))).
     assert (Hlen : length musts = count_must (o_incs o)).
     { unfold musts, count_must.
@@ -91,7 +91,7 @@ Section Count.
       apply filter_In in Hq. destruct Hq as (Hc & Hm). cbn [fst snd] in *.
       destruct (in_combine_nth _ _ _ _ _ _ Hc) as (k & A & B).
       assert (Hw : oi_wire oi = WOpen) by (destruct (oi_wire oi); try discriminate; reflexivity).
-      destruct (nh_open _ _ NHs k hr oi A B Hw) as (e & He & Heh).
+      destruct (nh_open _ _ NHs Hce k hr oi A B Hw) as (e & He & Heh).
       apply in_map_iff. exists e. auto.
   Qed.
 
@@ -197,7 +197,7 @@ Section V11.
     cbv zeta in G1, G6. fold o' in G1, G6.
     destruct (cx_top _ _ CX Hs) as (HI & _ & Hr). destruct (Hr (eq_trans G6 Hc)) as (Hh & _).
     pose proof (gauge_upper o' s' HI Hh (eq_trans G6 Hc)) as U.
-    pose proof (gauge_lower o' s' HI (cx_nh _ _ CX Hb Hs)) as L.
+    pose proof (gauge_lower o' s' HI (cx_nh _ _ CX Hb Hs) (eq_trans G6 Hc)) as L.
     pose proof (gauge_timers o' s' HI) as Tm. rewrite G1 in U, L.
     unfold bound11. apply andb_true_iff. split; [apply andb_true_iff; split|].
     - apply Nat.leb_le. exact L.
